@@ -75,6 +75,8 @@ func (fr *Frame) monitorCall(ins ssa.CallInstruction, cc *ssa.CallCommon, ci *ca
 	}
 	obj := fr.val(objV)
 	mu := args[0]
+	fr.curIns = ins
+	fr.curPos = ins.Pos()
 	held := c.ghost(fr.st, "held")
 	fr.ghostAtCall(ci, 0, "before", args)
 	defer fr.ghostAtCallAfter(ci, 0, args, nil)
